@@ -6,7 +6,11 @@ from gen import *
 
 THEOREMS = ["C04_tcp_fields_readback", "C04_counters_follow_account", "C04_open", "C04_client_close",
             "C04_server_close", "C04_client_message", "C04_server_message", "C04_holes", "C04_ack_reset",
-            "C04_data_offsets", "C04_override_is_local"]
+            "C04_data_offsets", "C04_override_is_local",
+            # history level: all operation lists refine the account, overrides, reassembly in any order (Props/C04b.v)
+            "C04_methods_are_ops", "C04_ops_are_u32", "C04_ops_hdr_u32", "C04_call_refines", "C04_history_refines", "C04_history_refines_overrides", "C04_history_total", "C04_override_segments", "C04_override_account", "C04_untraced_call_deletable", "C04_direction_on_wire", "C04_history_keeps_ends", "C04_reassembly_any_order", "C04_reassembled_stream", "C04_stream_is_concatenation"]
+PROPS = ["C04", "C04b"]
+VO = ["theories/Props/C04.vo", "theories/Props/C04b.vo"]
 RULE = ("histories of TcpFlow operations: exhaustive small scope (all sequences of <= 3 (quick) / 4 (thorough) "
         "operations over open, client/server message with and without the automatic ACK, single segments, bare ACKs, "
         "holes, resets, closes; payload lengths 0,1,3) for ISNs 1, 2^31, 2^32-1, 2^32-3, plus random histories up to "
